@@ -308,10 +308,10 @@ class AsCompleted(_CHarness):
 
   def __init__(self, W=2, T=2, bad=None, ignore=False, menu=(),
                driver='as_completed', timeout=60, mode='preempt', push=True,
-               pause=False):
+               pause=False, bad_kind='raise'):
     self.params = dict(W=W, T=T, bad=bad, ignore=ignore, menu=list(menu),
                        driver=driver, timeout=timeout, mode=mode, push=push,
-                       pause=pause)
+                       pause=pause, bad_kind=bad_kind)
     if pause:
       self.pause_focus = ('_as_completed', 'as_completed', 'run',
                           'call_and_wait', 'next_idle_worker', 'submit')
@@ -345,7 +345,10 @@ class AsCompleted(_CHarness):
       fake_courier.NET.menu = {'maybe_make': list(p['menu'])}
       tasks = []
       for i in range(p['T']):
-        if p['bad'] == i:
+        if p['bad'] == i and p.get('bad_kind') == 'unpicklable':
+          # cannot be sent at all: submit()/call() fail on the client side
+          tasks.append(lf.trace(fx.identity)(fx.Unpicklable(f'task{i}')))
+        elif p['bad'] == i:
           tasks.append(lf.trace(fx.raiser)(f'task{i}'))
         else:
           tasks.append(lf.trace(fx.task_id)(i))
@@ -380,8 +383,10 @@ class AsCompleted(_CHarness):
 
   def _cfg(self):
     p = self.params
+    bad = ('unpicklable-task' if p.get('bad_kind') == 'unpicklable'
+           else 'bad-task')
     return (f'{p["driver"]}:W{p["W"]}:'
-            f'{"bad-task" if p["bad"] is not None else "good-tasks"}'
+            f'{bad if p["bad"] is not None else "good-tasks"}'
             f'{"-ignored" if p["ignore"] else ""}:'
             f'{"push" if p["push"] else "pull"}-heartbeats')
 
@@ -411,6 +416,8 @@ class AsCompleted(_CHarness):
     must_raise = p['bad'] is not None and not p['ignore']
     if p['driver'] == 'call_and_wait':
       must_raise = p['bad'] == 0
+    if p['bad'] is not None and p.get('bad_kind') == 'unpicklable':
+      must_raise = True     # a task that cannot be sent is a loud client error
     if self.end == ('ok',):
       if must_raise:
         out.append((f'C06:tasks:task-error-silently-dropped:{fault}:{cfg}',
